@@ -446,7 +446,9 @@ pub fn c17_step(_st: &mut C17State, pre: &StoreSnap, post: &StoreSnap, step: &St
                     if grew && b1.borrow_limit != u64::MAX && b1.liabs() >= q_int(b1.borrow_limit) {
                         out.push(finding("caps:borrow-limit", format!("op#{}: borrow succeeded with total debt {} >= limit {}", step.index, q_str(&b1.liabs()), b1.borrow_limit)));
                     }
-                    if b1.assets() < b1.liabs() {
+                    // the program compares the two I80F48 products (each truncated towards zero by < 1 ulp = 2^-48 native
+                    // units): exact deposits >= exact debt - 1 ulp is what a correct comparison guarantees
+                    if b1.assets() + ulp() <= b1.liabs() {
                         out.push(finding("caps:utilization", format!("op#{}: after borrow deposits {} < debt {}", step.index, q_str(&b1.assets()), q_str(&b1.liabs()))));
                     }
                 }
@@ -455,7 +457,7 @@ pub fn c17_step(_st: &mut C17State, pre: &StoreSnap, post: &StoreSnap, step: &St
         Op::Withdraw { .. } => {
             if step.ok {
                 if let Some(b1) = post.banks.get(&key) {
-                    if b1.assets() < b1.liabs() {
+                    if b1.assets() + ulp() <= b1.liabs() {
                         out.push(finding("caps:utilization", format!("op#{}: after withdraw deposits {} < debt {}", step.index, q_str(&b1.assets()), q_str(&b1.liabs()))));
                     }
                 }
